@@ -58,6 +58,10 @@ for atype in ("complete", "upper-half"):
             y = rng.random(N) + 1j * rng.random(N)
             y[0] = y[0].real
             f = DFunction(t, y)
+            if N % 3 == 0:
+                # the same function reached through its history: created with real values, complex values assigned later
+                f = DFunction(t, numpy.real(y).copy())
+                f.data = y.copy()
             F = f.get_Fourier_transform()
             # Hermitian extension f(-t) = conj f(t) on the grid -(N-1)..N-1
             te = numpy.concatenate([-t.data[:0:-1], t.data])
